@@ -15,9 +15,12 @@ The result of running a program is the **exact list of buffers** handed to the w
 element per `write_all` call, in order (empty buffers included: `indent` with an empty indent string
 still calls `write_all`). Literal byte strings come from `SJ.Gen` (extracted from the source).
 
-`usize` arithmetic: `current_indent -= 1` is modelled on `Nat` (truncating); `begin_*`/`end_*` are
-always balanced by `Serializer`, so the subtraction never underflows (C03 proofs: the indent is
-restored after every value). Import-free (only `SJ.Spec`, `SJ.Gen`, `SJ.Model`).
+`usize` arithmetic: `current_indent -= 1` is modelled on `Nat` (truncating) together with a sticky
+flag `underflow` that records a decrement at 0 (a panic in builds with overflow checks, a wrap-around
+to `usize::MAX` and a practically endless `indent` loop otherwise — in both cases no output).
+`begin_*`/`end_*` are balanced by `Serializer` for programs with exact hints, so the flag is never set
+for them (`SJ.Props.C03.c03_no_underflow`); a non-empty seq/map announced as `Some(0)` does set it.
+Import-free (only `SJ.Spec`, `SJ.Gen`, `SJ.Model`).
 -/
 namespace SJ.Model.Ser
 open SJ SJ.Model.EscapeLocal
@@ -38,10 +41,16 @@ deriving Repr
 structure FState where
   currentIndent : Nat
   hasValue : Bool
+  /-- not a field of the Rust struct: set when `current_indent -= 1` is executed at 0 -/
+  underflow : Bool := false
 deriving DecidableEq, Repr, Inhabited
 
 /-- `PrettyFormatter::with_indent`: `current_indent: 0, has_value: false` -/
 def FState.init : FState := { currentIndent := 0, hasValue := false }
+
+/-- `self.current_indent -= 1` -/
+def FState.decIndent (st : FState) : FState :=
+  { st with currentIndent := st.currentIndent - 1, underflow := st.underflow || st.currentIndent == 0 }
 
 /-- buffers written and the formatter state afterwards -/
 structure W where
@@ -76,7 +85,7 @@ writer.write_all(b"[")                       self.current_indent += 1; self.has_
 def beginArray : Fmt → FState → W
   | .compact, st => { bufs := [Gen.cBeginArray], st := st }
   | .pretty _, st =>
-    { bufs := [Gen.pBeginArray], st := { currentIndent := st.currentIndent + 1, hasValue := false } }
+    { bufs := [Gen.pBeginArray], st := { st with currentIndent := st.currentIndent + 1, hasValue := false } }
 
 /-- ```rust
 // default                                   // PrettyFormatter
@@ -88,9 +97,9 @@ writer.write_all(b"]")                       self.current_indent -= 1;
 def endArray : Fmt → FState → W
   | .compact, st => { bufs := [Gen.cEndArray], st := st }
   | .pretty ind, st =>
-    let ci := st.currentIndent - 1
-    { bufs := (if st.hasValue then [Gen.pEndArrayNl] ++ indentBufs ci ind else []) ++ [Gen.pEndArray],
-      st := { st with currentIndent := ci } }
+    let st := st.decIndent
+    { bufs := (if st.hasValue then [Gen.pEndArrayNl] ++ indentBufs st.currentIndent ind else []) ++ [Gen.pEndArray],
+      st := st }
 
 /-- ```rust
 // default                                   // PrettyFormatter
@@ -112,15 +121,15 @@ def endArrayValue : Fmt → FState → W
 def beginObject : Fmt → FState → W
   | .compact, st => { bufs := [Gen.cBeginObject], st := st }
   | .pretty _, st =>
-    { bufs := [Gen.pBeginObject], st := { currentIndent := st.currentIndent + 1, hasValue := false } }
+    { bufs := [Gen.pBeginObject], st := { st with currentIndent := st.currentIndent + 1, hasValue := false } }
 
 /-- as `end_array` with `b"}"` -/
 def endObject : Fmt → FState → W
   | .compact, st => { bufs := [Gen.cEndObject], st := st }
   | .pretty ind, st =>
-    let ci := st.currentIndent - 1
-    { bufs := (if st.hasValue then [Gen.pEndObjectNl] ++ indentBufs ci ind else []) ++ [Gen.pEndObject],
-      st := { st with currentIndent := ci } }
+    let st := st.decIndent
+    { bufs := (if st.hasValue then [Gen.pEndObjectNl] ++ indentBufs st.currentIndent ind else []) ++ [Gen.pEndObject],
+      st := st }
 
 /-- as `begin_array_value` -/
 def beginObjectKey : Fmt → Bool → FState → W
@@ -398,6 +407,13 @@ def serCompact (ext : Ext) (p : SVal) : Except SerErr (List Bytes) :=
     `to_writer_pretty` is `indent = b"  "` -/
 def serPretty (ext : Ext) (indent : Bytes) (p : SVal) : Except SerErr (List Bytes) :=
   (ser ext (.pretty indent) p FState.init).map (·.bufs)
+
+/-- does `current_indent -= 1` underflow while pretty-printing `p`? (then there is no output: panic,
+    or wrap-around and an endless loop) -/
+def prettyUnderflows (ext : Ext) (indent : Bytes) (p : SVal) : Bool :=
+  match ser ext (.pretty indent) p FState.init with
+  | .ok r => r.st.underflow
+  | .error _ => false
 
 /-! ## `impl Serialize for Value`
 
